@@ -562,10 +562,10 @@ type mwRecv struct {
 }
 
 type mwSession struct {
-	recvd  []mwRecv
-	emits  []*mwDownRec
-	byMsg  map[mocrelay.ServerMsg]*mwDownRec
-	ended  bool
+	recvd []mwRecv
+	emits []*mwDownRec
+	byMsg map[mocrelay.ServerMsg]*mwDownRec
+	ended bool
 }
 
 type mwCtxKey struct{}
